@@ -101,9 +101,11 @@ func (a *Agent) TeamserverTaskPrepare(Command string, Console func(AgentID strin
 				break
 
 			case "clear":
-				if len(a.JobQueue) > 0 {
-					var Jobs = len(a.JobQueue)
-					a.JobQueue = nil
+				a.JobQueueMtx.Lock()
+				var Jobs = len(a.JobQueue)
+				a.JobQueue = nil
+				a.JobQueueMtx.Unlock()
+				if Jobs > 0 {
 					Console(a.NameID, map[string]string{
 						"Type":    "Good",
 						"Message": fmt.Sprintf("Cleared task queue [%v]", Jobs),
